@@ -175,6 +175,7 @@ class SchemaMagic(DynEncoderModelMetaclass):
         return ret
 
     def __init__(self, name, bases, dct):
+        super().__init__(name, bases, dct)  # (sets up the dynamic JSON encoders)
         self.__types_checked__ = False  # marker used by check_types (for performance)
 
         # prevent implicit inheritance of class-specific internal/meta stuff:
